@@ -218,3 +218,22 @@ def t_tree_case(t, system=None, licensed=None, max_leaves=6, tok_exclude='', ja_
 def tree_of_case(case):
     from vlib import gen_tok
     return build_tree(deriv_from_json(case['deriv']), [gen_tok.make_token(tk) for tk in case['tokens']])
+
+
+def t_derivation_with_label(t, idx, label, max_leaves=5):
+    """a licensed derivation that contains a node with the given (op_string, op_symbol), if the index has one"""
+    ex = idx.by_label.get(label) or []
+    if not ex:
+        # unary label: look it up among unary results
+        for res, lst in idx.unary_by_result.items():
+            for x, lab, sym in lst:
+                if (lab, sym) == label:
+                    child = t_derivation(t, idx, max_leaves=max_leaves, root=x)
+                    return ('U', res, child, lab, sym)
+        return None
+    x, y, res = ex[t.below(len(ex))]
+    lab, sym = label
+    hl = next((h for (a, b, l2, s2, h) in idx.by_result.get(res, []) if (a, b, l2, s2) == (x, y, lab, sym)), True)
+    left = t_derivation(t, idx, max_leaves=max(1, max_leaves // 2), root=x)
+    right = t_derivation(t, idx, max_leaves=max(1, max_leaves // 2), root=y)
+    return ('B', res, left, right, lab, sym, hl)
